@@ -121,6 +121,23 @@ Theorem C01_ecdsa_verifier_ok_iff : forall ec_point_ok ec_sig_ok ec_verify a k s
 Proof. exact ecdsa_ok_iff. Qed.
 Theorem C01_eddsa_signature_length_exact : forall ed_point_ok ed_verify a k sg msg, length sg <> 64%nat -> eddsa_jws_verify ed_point_ok ed_verify a k sg msg <> None.
 Proof. exact eddsa_length_exact. Qed.
+(* decoder and shipped verifier together: what JwsValidationItem::verify reports as verified with the EdDSA (ECDSA) verifier is a token whose
+   signature segment decodes to EXACTLY 64 bytes that the primitive accepts over EXACTLY the received signing input under the key's coordinates *)
+Theorem C01_verified_by_eddsa : forall (H : Type) (halg : H -> option Z) ed_point_ok ed_verify it kalg d k,
+  verify H halg (V_eddsa ed_point_ok ed_verify k) it kalg = Ok d ->
+  d = it /\ vk_family k = KOkp /\ vk_crv k = ED25519
+  /\ exists pk, b64u_decode (vk_x k) = Some pk /\ length pk = 32%nat /\ ed_point_ok pk = true
+     /\ length (it_sig H it) = 64%nat /\ ed_verify pk (it_sig H it) (it_si H it) = true.
+Proof. exact verified_by_eddsa. Qed.
+Theorem C01_verified_by_ecdsa : forall (H : Type) (halg : H -> option Z) ec_point_ok ec_sig_ok ec_verify it kalg d k,
+  verify H halg (V_ecdsa ec_point_ok ec_sig_ok ec_verify k) it kalg = Ok d ->
+  d = it /\ vk_family k = KEc
+  /\ exists (k1 : bool) x y, b64u_decode (vk_x k) = Some x /\ b64u_decode (vk_y k) = Some y /\ length x = 32%nat /\ length y = 32%nat
+     /\ ec_point_ok k1 (x ++ y) = true /\ length (it_sig H it) = 64%nat /\ ec_sig_ok k1 (it_sig H it) = true
+     /\ ec_verify k1 (x ++ y) (it_sig H it) (it_si H it) = true.
+Proof. exact verified_by_ecdsa. Qed.
+Print Assumptions C01_verified_by_eddsa.
+Print Assumptions C01_verified_by_ecdsa.
 Print Assumptions C01_eddsa_verifier_ok_iff.
 Print Assumptions C01_ecdsa_verifier_ok_iff.
 Print Assumptions C01_eddsa_signature_length_exact.
